@@ -83,6 +83,16 @@ Probes == << Probe("GET", "/probe", "none", 0, << >>),
              [Probe("GET", "/probe10", "none", 0, << >>) EXCEPT !.ver = "1.0"],
              [Probe("POST", "/probe/fold", "cl", 3, << >>) EXCEPT !.fields = HeaderSets[3]] >>
 
+\* chunked requests that also carry Content-Length (smaller than, equal to and larger than the encoded body)
+AmbigBase(n, cs) == [Probe("POST", "/both", "chunked", n, cs) EXCEPT !.fields = <<HostField, F("x-a", "canon", <<"v1">>)>>]
+AmbigReqs == <<
+   AmbigBase(7, <<3, 4>>) @@ [clBefore |-> "3"],  AmbigBase(7, <<3, 4>>) @@ [clAfter |-> "3"],
+   AmbigBase(7, <<7>>) @@ [clBefore |-> "7"],     AmbigBase(7, <<7>>) @@ [clAfter |-> "0"],
+   AmbigBase(5, <<5>>) @@ [clAfter |-> "10"],     AmbigBase(5, <<1, 4>>) @@ [clBefore |-> "100"],
+   AmbigBase(26, <<10, 11, 5>>) @@ [clBefore |-> "26", clAfter |-> "1"] >>
+AmbigScripts == [k \in 1 .. Len(AmbigReqs) |-> <<AmbigReqs[k], Probes[(k % Len(Probes)) + 1]>>]
+                \o [k \in 1 .. Len(AmbigReqs) |-> <<Probes[2], AmbigReqs[k], Probes[1]>>]
+
 Pairs == [k \in 1 .. Len(Singles) * Len(Probes) |->
              <<Singles[((k - 1) \div Len(Probes)) + 1], Probes[((k - 1) % Len(Probes)) + 1]>>]
 \* probe first, then the shape (the shape must survive what the previous request left in the buffer)
@@ -92,7 +102,7 @@ Triples == [k \in 1 .. Cardinality(TripleIdx) |->
               LET j == k * TripleStride IN
               <<Singles[j], Singles[((j * 7) % Len(Singles)) + 1], Probes[(k % Len(Probes)) + 1]>>]
 
-Scripts == [k \in 1 .. Len(Singles) |-> <<Singles[k]>>] \o Pairs \o PairsRev \o Triples
+Scripts == [k \in 1 .. Len(Singles) |-> <<Singles[k]>>] \o Pairs \o PairsRev \o Triples \o AmbigScripts
 
 Case(k) == [id |-> k, script |-> Scripts[k], wire |-> Encode(Scripts[k]), offs |-> Offsets(Scripts[k])]
 
